@@ -11,7 +11,7 @@ from . import c10 as C10
 
 CLAIM = dict(
     technique="runtime monitoring: bounds/capacity event hooks (NMTOOLS_VERIF) in ndarray access, indexing views and the utl containers + ASan/UBSan/_GLIBCXX_ASSERTIONS, over every accepted-argument execution of the value-level workloads and pipelines, in STL and STL-free builds",
-    text="Re-executes every accepted-argument case of the value-level generators (C03..C08, C16, C17 that exist in this tree) and the C10 pipelines, reading every element lazily and through three eager routes, in the `asan` build and in the `nostl` build (library's own containers, where the hooks see logical size, which libstdc++ assertions cannot); thorough adds `asan-ndebug` (the baseline's configuration), `clang` and valgrind memcheck on a sample. A violation is: a hook event with index >= extent / offset >= buffer length / index >= logical size of a bounded container / a request beyond a static_vector capacity, or any sanitizer / libstdc++ assertion / trap. The run is inconclusive if the bounds hooks observed nothing. Held-on-observed.",
+    text="Re-executes every accepted-argument case of the value-level generators (C03..C08, C16, C17 that exist in this tree), the hand-written and the generated C10 pipelines, the view-level slicing workload of C05 (every argument there is accepted: out-of-range bounds are clamped) and the type-level programs of C09/C11 (constant / clipped / fixed / bounded / hybrid containers, 15 ndarray kinds: static_vector capacity events per phase for calls the reference accepts), reading every element lazily and through three eager routes, in the `asan` build and in the `nostl` build (library's own containers, where the hooks see logical size, which libstdc++ assertions cannot); thorough adds `asan-ndebug` (the baseline's configuration), `clang` and valgrind memcheck on a sample. A violation is: a hook event with index >= extent / offset >= buffer length / index >= logical size of a bounded container / a request beyond a static_vector capacity, or any sanitizer / libstdc++ assertion / trap. The run is inconclusive if the bounds hooks observed nothing. Held-on-observed.",
     note="Red zones miss non-adjacent overruns: that is what the hooks are for; raw pointer arithmetic inside SIMD intrinsics is only seen by ASan (C12 runs the SIMD evaluators under ASan with exactly-sized heap operands). Arguments an operation does not validate are out of scope by the statement.",
     ref="DESIGN.md 4/C02")
 
@@ -29,7 +29,12 @@ def _targets():
             if fl != "asan" and n not in NOSTL_QUICK:
                 continue
             out.append(B.Target(os.path.join(B.HARNESS, h + ".cpp"), fl))
-    return out
+    out = out + C10.gen_quick_targets()      # generated C10 pipelines (asan build only)
+    # supplementary workloads (vf/c02_extra.py): the C05 view-level slicing binaries and the type-level programs of C09/C11
+    from . import c05 as C05
+    from .. import c09_run as CR
+    out += [B.Target(os.path.join(B.HARNESS, h + ".cpp"), "asan") for h in C05.V_BINS]
+    return out + [t for t in CR.quick_targets_seed0() if t.flavor in ("asan", "nostl")]
 
 
 TARGETS_QUICK = [_targets]
@@ -58,7 +63,19 @@ def workloads(ctx):
         out.append((name, mod.HARNESS, cases, getattr(mod, "PARSE", V.parse_view_record)))
     rng = ctx.rng.__class__(ctx.seed * 104729 + 10)
     out.append(("pipelines", C10.HARNESS, C10.gen_pipes(rng, ctx.tier), C10.parse_pipe))
+    # the generated C10 pipelines (vf/c10_gen.py): same translation units and cases as C10 itself, asan build only
+    gh = C10.GenHarness(ctx.tier, ctx.seed)
+    out.append((GEN, gh, gh.cases, C10.parse_pipe))
     return out
+
+
+GEN = "pipelines_generated"
+
+
+def run_workload(harness, cases, flavor, parse, **kw):
+    if hasattr(harness, "run"):
+        return harness.run(cases, flavor, parse, **kw)
+    return V.run_module_cases(harness, cases, flavor, parse=parse, **kw)
 
 
 def exception_text(cr):
@@ -96,8 +113,10 @@ def run(ctx):
         for name, harness, cases, parse in wl:
             if quick and flavor != "asan" and name not in NOSTL_QUICK:
                 continue
+            if name == GEN and flavor != "asan":
+                continue
             try:
-                res = V.run_module_cases(harness, cases, flavor, parse=parse)
+                res = run_workload(harness, cases, flavor, parse)
             except Inconclusive as e:
                 if flavor == "asan":
                     raise
@@ -141,11 +160,20 @@ def run(ctx):
                     ctx.sample(dict(flavor=flavor, op=op, args=cr.m.get("args"), hook_events={SITE_NAMES.get(s, s): e for s, (e, v, f0, f1) in cr.hooks.items()}))
         summary[flavor] = dict(cases=nrun, hooks=acc.summary())
         total_bounds_events += sum(e for s, e in acc.events.items() if SITE_NAMES.get(s) in BOUNDS_SITES)
+    # supplementary workloads outside the value-level module interface
+    from .. import c02_extra as X
+    sv = X.run_slice_views(ctx)
+    summary["slice_views[asan]"] = sv
+    total_bounds_events += sv["bounds_events"]
+    ncrash += sv["crashes_contained"]
+    ctx.set("typelevel_programs", X.run_typelevel(ctx))
     # thorough: valgrind memcheck on a sample of the plain build (uninitialised reads feeding addresses)
     if not quick and os.path.exists("/usr/bin/valgrind"):
         acc = HookAcc()
         nrun = 0
         for name, harness, cases, parse in wl:
+            if name == GEN or not cases:
+                continue
             sample = ctx.rng.sample(cases, max(1, len(cases) // 40))
             try:
                 res = V.run_module_cases(harness, sample, "plain", parse=parse, timeout=3600,
